@@ -6,6 +6,7 @@ import LaytheVerif.Lemmas.C01Ops
 import LaytheVerif.Lemmas.C01Lower
 import LaytheVerif.Lemmas.C01Pratt2
 import LaytheVerif.Model.CallProtocol
+import LaytheVerif.Gen.Natives
 import LaytheVerif.Model.LayRef.Eval
 /-!
 # C01 — expressions, operators and control flow evaluate per the source semantics
@@ -18,7 +19,8 @@ import LaytheVerif.Model.LayRef.Eval
   arbitrary surrounding code with disjoint labels.
 * `C01_pratt_roundtrip` **[T]** — the parser model driven by the generated tables parses every admissible rendering
   (at least the required parentheses) back to the same tree.
-* `C01_call_protocol` **[T]** — arity error / frame push / return placement / frame bound (`Gen.MAX_FRAME_SIZE`).
+* `C01_call_protocol`, `C01_frame_bound` **[T]** — arity error / frame push / return placement / frame bound (`Gen.MAX_FRAME_SIZE`,
+  test `>=` in `call_closure`, `call` and in front of the stub frame of `call_native`: `C01_frame_guard_text`).
 * `C01_full` — whole-pipeline statement, **not proved**.  Not attempted: `C01_lower_stmt_correct` (statements, loops).
 -/
 set_option linter.unusedSimpArgs false
@@ -740,12 +742,13 @@ argument list and every result:
    value stack is untouched; and whatever the body leaves above the arguments (`work`), a `Return` of `result` gives the
    caller its old stack with callee and arguments replaced by exactly `result`, and the caller's frames — hence its `ip`,
    the instruction after the call — are as before;
-3. the number of frames never exceeds `Gen.MAX_FRAME_SIZE`: at the limit the call raises "Stack overflow." instead. -/
+3. the number of frames never exceeds `Gen.MAX_FRAME_SIZE`: at (or above) the limit the call raises "Stack overflow."
+   instead (`C01_frame_bound`: the same holds for the stub frame of a stack-using native). -/
 theorem C01_call_protocol (fn : Nat) (name : String) (n m : Nat) (pre args work : List Value) (callee result : Value)
     (frames : List Frame) (hargs : args.length = m) :
     let fb : Fiber := ⟨pre ++ callee :: args, frames⟩
     (m ≠ n → CallProtocol.callClosure fn name n m fb = .error (arityError name n m)) ∧
-    (m = n → frames.length = Gen.MAX_FRAME_SIZE → CallProtocol.callClosure fn name n m fb = .error ("RuntimeError", "Stack overflow.")) ∧
+    (m = n → frames.length ≥ Gen.MAX_FRAME_SIZE → CallProtocol.callClosure fn name n m fb = .error ("RuntimeError", "Stack overflow.")) ∧
     (m = n → frames.length < Gen.MAX_FRAME_SIZE → frames ≠ [] →
       ∃ fb', CallProtocol.callClosure fn name n m fb = .ok fb' ∧
         fb'.stack = fb.stack ∧ fb'.frames = ⟨fn, pre.length, 0⟩ :: frames ∧
@@ -758,7 +761,7 @@ theorem C01_call_protocol (fn : Nat) (name : String) (n m : Nat) (pre args work 
   · intro he hlt hne
     have hstart : (pre ++ callee :: args).length - (m + 1) = pre.length := by simp [hargs]
     refine ⟨⟨pre ++ callee :: args, ⟨fn, pre.length, 0⟩ :: frames⟩, ?_, rfl, rfl, ?_, ?_⟩
-    · have : frames.length ≠ Gen.MAX_FRAME_SIZE := by omega
+    · have : ¬ Gen.MAX_FRAME_SIZE ≤ frames.length := by omega
       simp [CallProtocol.callClosure, he, this, fb]
       omega
     · simp; omega
@@ -778,7 +781,55 @@ example : (CallProtocol.callClosure 7 "f" 2 2 ⟨[.nil, .str "f", .bool true, .b
 example : CallProtocol.callClosure 7 "f" 2 1 ⟨[.str "f", .nil], [⟨0, 0, 5⟩]⟩ = .error ("RuntimeError", "f expected 2 argument(s) but received 1.") := by
   simp [CallProtocol.callClosure, CallProtocol.arityError]; decide
 
+/-- the text of the three frame-limit tests of ops.rs (`Gen/FrameLimit.lean`): all three compare with `>=` -/
+theorem C01_frame_guard_text :
+    Gen.frameLimitGuards = [("call_native", ">="), ("call_closure", ">="), ("call", ">=")] := by decide
+
+/-- **C01_frame_bound** — neither a Laythe call nor the stub frame of a stack-using native takes a fiber above
+`Gen.MAX_FRAME_SIZE` frames: from a fiber within the bound every successful push stays within it, and from *any* fiber at
+or above the bound both are refused with "Stack overflow." (the test is `>=`, it cannot be stepped over). -/
+theorem C01_frame_bound (fn : Nat) (name : String) (n m : Nat) (fb : Fiber) :
+    (∀ fb', fb.frames.length ≤ Gen.MAX_FRAME_SIZE → CallProtocol.callClosure fn name n m fb = .ok fb' →
+        fb'.frames.length ≤ Gen.MAX_FRAME_SIZE) ∧
+    (∀ fb', fb.frames.length ≤ Gen.MAX_FRAME_SIZE → CallProtocol.pushNativeStub fn m fb = .ok fb' →
+        fb'.frames.length ≤ Gen.MAX_FRAME_SIZE ∧ fb'.stack = fb.stack) ∧
+    (fb.frames.length ≥ Gen.MAX_FRAME_SIZE → m = n →
+        CallProtocol.callClosure fn name n m fb = .error ("RuntimeError", "Stack overflow.")) ∧
+    (fb.frames.length ≥ Gen.MAX_FRAME_SIZE →
+        CallProtocol.pushNativeStub fn m fb = .error ("RuntimeError", "Stack overflow.")) := by
+  refine ⟨?_, ?_, ?_, ?_⟩
+  · intro fb' _ h
+    unfold CallProtocol.callClosure at h
+    by_cases hm : m ≠ n
+    · simp [hm] at h
+    · by_cases hg : fb.frames.length ≥ Gen.MAX_FRAME_SIZE
+      · simp [hm, hg] at h
+      · simp [hm, hg] at h; subst h; simp; omega
+  · intro fb' _ h
+    unfold CallProtocol.pushNativeStub at h
+    by_cases hg : fb.frames.length ≥ Gen.MAX_FRAME_SIZE
+    · simp [hg] at h
+    · simp [hg] at h; subst h; simp; omega
+  · intro hg he; simp [CallProtocol.callClosure, he, hg]
+  · intro hg; simp [CallProtocol.pushNativeStub, hg]
+
+-- non-vacuity: a fiber with 255 frames refuses both, one with 254 admits the stub frame
+set_option maxRecDepth 8000 in
+example : (CallProtocol.pushNativeStub 9 1 ⟨[.nil, .nil], List.replicate 255 ⟨0, 0, 0⟩⟩).toOption.map (·.frames.length) = none := by
+  decide
+set_option maxRecDepth 8000 in
+example : (CallProtocol.pushNativeStub 9 1 ⟨[.nil, .nil], List.replicate 254 ⟨0, 0, 0⟩⟩).toOption.map (·.frames.length) = some 255 := by
+  decide
+
 end Calls
+
+/-- the reference interpreter counts a stub frame for exactly the natives the regenerated table declares `.with_stack()`:
+for every registered global native that `LayRef` implements, the table's flag is `LayRef.nativeUsesStack`, or it is the
+`str` of a list, map or tuple (counted per level of nesting in `LayRef.strOf`) -/
+theorem C01_layref_stack_natives :
+    ∀ r ∈ Gen.natives, r.module = "" → (LayRef.nativeSig r.owner r.name).isSome = true →
+      r.stack = (LayRef.nativeUsesStack r.owner r.name || (r.name == "str" && ["List", "Map", "Tuple"].contains r.owner)) := by
+  decide +kernel
 
 /-- the reference interpreter uses the same call-depth bound as the generated constant -/
 theorem layref_frame_limit : LayRef.maxFrames = Gen.MAX_FRAME_SIZE := by decide
